@@ -105,9 +105,12 @@ def setup_crate(project_dir, body, router=False):
         f.write(main)
 
 
-def call_expr(macro, locale_ident, keypath, fields, values, counts):
+def call_expr(macro, locale_ident, keypath, fields, values, counts, scope_depth=0):
     """td_string!(Locale::en, a.b, x = "..", count = 3u8, <b> = "b")"""
     args = ["Locale::%s" % locale_ident, ".".join(keypath)]
+    if scope_depth:
+        # same key read through a scoped locale: scope_locale!(Locale::x, a.b) then the rest of the path
+        args = ["scope_locale!(Locale::%s, %s)" % (locale_ident, ".".join(keypath[:scope_depth])), ".".join(keypath[scope_depth:])]
     view = macro == "td_view"
     for f in fields:
         if f.startswith("comp_"):
@@ -145,7 +148,7 @@ def run_requests(project_dir, requests, timeout=900):
     -> list of texts (or {"error":..})"""
     lines = []
     for i, r in enumerate(requests):
-        e = call_expr(r.get("macro", "td_string"), r["locale"], r["path"], r["fields"], r.get("strings", {}), r.get("nums", {}))
+        e = call_expr(r.get("macro", "td_string"), r["locale"], r["path"], r["fields"], r.get("strings", {}), r.get("nums", {}), r.get("scope_depth", 0))
         lines.append('    println!("{}\\t{}", %d, hex(&%s.to_string()));' % (i, e))
     setup_crate(project_dir, "\n".join(lines))
     env = dict(os.environ, CARGO_NET_OFFLINE="true", CARGO_TARGET_DIR=TARGET)
